@@ -49,17 +49,51 @@ MUTS = [
  ('M20 DataSet.select: corr_products labels taken from the unselected list head', 'katdal/dataset.py',
   "self.corr_products = self.subarrays[self.subarray].corr_products[self._corrprod_keep]",
   "self.corr_products = self.subarrays[self.subarray].corr_products[:self._corrprod_keep.sum()]"),
+ # ---- round 2: per-dump sensors are evaluated at the timestamps of the same dumps (seeded C01-3 and its neighbourhood)
+ ('M21 seeded C01-3: v2 restores the real timestamps into the sensor cache only when found irregular', 'PATCH',
+  '/verif/seeded/C01-3/patch.diff', ''),
+ ('M22 v1: the real timestamps are never restored into the sensor cache', 'katdal/h5datav1.py',
+  "        self.sensor.timestamps = self.timestamps\n", "        pass\n"),
+ ('M23 v2: the restored sensor-cache timestamps ignore time_offset', 'katdal/h5datav2.py',
+  "extract_time = LazyTransform('extract_time', lambda t, keep: t + 0.5 * dump_period + time_offset)\n        self.sensor.timestamps",
+  "extract_time = LazyTransform('extract_time', lambda t, keep: t + 0.5 * dump_period)\n        self.sensor.timestamps"),
+ ('M24 v3: sensor cache built on the dump START times', 'katdal/h5datav3.py',
+  "self.sensor = SensorCache(cache, self._timestamps, self.dump_period,", "self.sensor = SensorCache(cache, self._timestamps - 0.5 * self.dump_period, self.dump_period,"),
+ ('M25 v4: sensor cache built on the dump START times', 'katdal/visdatav4.py',
+  "self.sensor = SensorCache(source.metadata.sensors, source.timestamps,", "self.sensor = SensorCache(source.metadata.sensors, source.timestamps - half_dump,"),
+ ('M26 v3: sensor cache ignores time_offset', 'katdal/h5datav3.py',
+  "self.sensor = SensorCache(cache, self._timestamps, self.dump_period,", "self.sensor = SensorCache(cache, self._timestamps - self.time_offset, self.dump_period,"),
+ ('M27 SensorCache: numeric sensors interpolated at the start of each dump', 'katdal/sensordata.py',
+  "sensor_data = np.interp(timestamps, sensor_timestamps, sensor_data.value)", "sensor_data = np.interp(timestamps - 0.5 * dump_period, sensor_timestamps, sensor_data.value)"),
+ ('M28 mjd computed from the start of each dump', 'katdal/dataset.py',
+  "cache[name] = mjd = np.array([katpoint.Timestamp(t).to_mjd()", "cache[name] = mjd = np.array([katpoint.Timestamp(t - 0.5 * cache.dump_period).to_mjd()"),
+ ('M29 v3: timestamps regularised when the quick uniformity test passes', 'katdal/h5datav3.py',
+  "        # Ensure timestamps are aligned with the middle of each dump\n",
+  "        if num_dumps > 1 and abs((self._timestamps[-1] - self._timestamps[0]) / self.dump_period + 1 - num_dumps) < 0.01:\n            self._timestamps = self._timestamps[0] + self.dump_period * np.arange(num_dumps)\n"),
+ ('M30 v2: sensor cache restored from ALL stored timestamps (duplicate final dump included)', 'katdal/h5datav2.py',
+  "self.sensor.timestamps = LazyIndexer(self._timestamps, keep=slice(num_dumps), transforms=[extract_time])",
+  "self.sensor.timestamps = LazyIndexer(self._timestamps, transforms=[extract_time])"),
+ ('M31 select(timerange=) decided on the estimated uniform grid', 'katdal/dataset.py',
+  "                self._time_keep &= (self.sensor.timestamps[:] >= start_time)\n                self._time_keep &= (self.sensor.timestamps[:] <= end_time)",
+  "                grid = self.sensor.timestamps[0] + self.dump_period * np.arange(len(self._time_keep))\n                self._time_keep &= (grid >= start_time)\n                self._time_keep &= (grid <= end_time)"),
+ ('M32 categorical sensors aligned with the dump START times', 'katdal/sensordata.py',
+  "sensor_data = sensor_to_categorical(sensor_data.timestamp, sensor_data.value,\n                                                timestamps, dump_period, **props)",
+  "sensor_data = sensor_to_categorical(sensor_data.timestamp, sensor_data.value,\n                                                timestamps - 0.5 * dump_period, dump_period, **props)"),
 ]
 only = sys.argv[1:]
 res = []
 for (name, rel, old, new) in MUTS:
     if only and name.split()[0] not in only: continue
     env0 = dict(os.environ, VERIF_REPO=REPO, VERIF_SEED='1')
-    r0 = subprocess.run(['timeout', '900', './check', 'C01', '--tier', 'quick'], cwd=VERIF, env=env0, capture_output=True, text=True)
-    assert r0.returncode == 0, r0.stdout[-2000:]
-    p = os.path.join(REPO, rel); s = open(p).read()
-    assert s.count(old) == 1, (name, s.count(old))
-    open(p, 'w').write(s.replace(old, new))
+    if not os.environ.get('C01_MUT_NOCLEAN'):
+        r0 = subprocess.run(['timeout', '900', './check', 'C01', '--tier', 'quick'], cwd=VERIF, env=env0, capture_output=True, text=True)
+        assert r0.returncode == 0, r0.stdout[-2000:]
+    if rel == 'PATCH':
+        subprocess.run(['git', '-C', REPO, 'apply', old], check=True)
+    else:
+        p = os.path.join(REPO, rel); s = open(p).read()
+        assert s.count(old) == 1, (name, s.count(old))
+        open(p, 'w').write(s.replace(old, new))
     shutil.rmtree(os.path.join(VERIF, 'replays'), ignore_errors=True)
     try:
         env = dict(os.environ, VERIF_REPO=REPO, VERIF_SEED=os.environ.get('VERIF_SEED', '1'))
@@ -67,11 +101,11 @@ for (name, rel, old, new) in MUTS:
         out = r.stdout + r.stderr
         viol = [l for l in out.split('\n') if l.startswith('VIOLATION')]
         sigs = []
-        for f in sorted(glob.glob(os.path.join(VERIF, 'replays', 'C01-*.json')))[:4]:
+        for f in sorted(glob.glob(os.path.join(VERIF, 'replays', 'C01-*.json')))[:6]:
             d = json.load(open(f)); sigs.append(d.get('signature') or str(d.get('broken_obligation')))
         broken = [l for l in out.split('\n') if 'BROKEN OBLIGATION' in l]
         res.append((name, r.returncode, len(viol), sigs, broken[:1]))
         print(name, '| exit', r.returncode, '| violations', len(viol), '|', sigs[:3], broken[:1], flush=True)
     finally:
         subprocess.run(['git', '-C', REPO, 'checkout', '--', '.'])
-json.dump(res, open(os.path.join(VERIF, 'build/c01_mutation_results.json'), 'w'), indent=1)
+json.dump(res, open(os.path.join(VERIF, 'build/c01_mutation_results%s.json' % ('_' + '_'.join(only) if only else '')), 'w'), indent=1)
